@@ -141,6 +141,8 @@ func runC12(c *Ctx, r *Rec) {
 	checkIndexGuardAdmitsLength(c, r, "D1-guard-excludes-the-length", c.allFuncDecls("cdcn"))
 	checkGuardExcludesCapacity(c, r, "D1-guard-excludes-the-capacity", "cdcn")
 	checkEnumIndexedTables(c, r, "D1-table-covers-the-enumeration", "cdcn")
+	checkNameTables(c, r, "D1-names-are-their-own", "cdcn")
+	shapeLints(c, r, c.allFuncDecls("cdcn"))
 
 	// ---- D2 unchecked assertions
 	nA := 0
